@@ -328,8 +328,13 @@ class ConnectionState:
     async def do_search(self, cmd: SearchCommand) -> _CommandRet:
         if not cmd.uid:
             self.selected.hide_expunged = True
-        messages, updates = await self.session.search_mailbox(
-            self.selected, cmd.keys)
+        try:
+            messages, updates = await self.session.search_mailbox(
+                self.selected, cmd.keys)
+        except RecursionError as exc:
+            # shallow enough to be parsed, too deep to be evaluated
+            raise NotSupportedError(
+                'SEARCH program is nested too deeply.') from exc
         resp = ResponseOk(cmd.tag, cmd.command + b' completed.')
         msg_ids: list[int] = []
         for msg_seq, msg in messages:
